@@ -3,7 +3,7 @@
 
 Mirror of the code *after* the four `fix:` commits recorded in `known_findings.d/C17.json`
 (`vdb_filter` reference counted; `replace_op` honours `force`; a refused `replace_op` restores the
-displaced package by force; `replace_op.revert` restores unconditionally).
+displaced package by force; `replace_op.revert` restores unconditionally; `pkg_choices` keyed by identity).
 
 Objects (packages, blockers, choice points, forced restrictions) are natural-number identities; the
 attributes the code reads from them (`pkg.key`, `pkg.slot`, `blocker.key`, `blocker.match(pkg)`) are
